@@ -62,7 +62,7 @@ fn sigs_of(h: &Hist, max_polls: u64) -> BTreeSet<String> {
 fn shrink(h: &Hist, sig: &str, max_polls: u64, budget: usize) -> (Hist, usize) {
     let mut cur = h.clone();
     let mut runs = 0usize;
-    let mut test = |cand: &Hist, runs: &mut usize| -> bool {
+    let test = |cand: &Hist, runs: &mut usize| -> bool {
         *runs += 1;
         sigs_of(cand, max_polls).contains(sig)
     };
@@ -169,12 +169,14 @@ struct Driver<'a> {
     prop: String,
     max_polls: u64,
     shrunk: BTreeSet<String>,
+    last_trace: Vec<String>,
 }
 
 impl<'a> Driver<'a> {
     fn run_history(&mut self, h: &Hist, case: u64, replaying: bool) {
         let trace_flag = self.shard.args.has("trace");
-        let (out, stats) = execute(h, trace_flag, self.max_polls);
+        let (out, stats) = execute(h, trace_flag || replaying, self.max_polls);
+        self.last_trace = out.as_ref().map(|o| o.trace.clone()).unwrap_or_default();
         self.rep.eval();
         self.rep.stat("worker_polls", stats.worker_polls as i128);
         self.rep.maxstat("max_virtual_ms", ((stats.end_ns - EPOCH_NS) / MS) as i128);
@@ -271,6 +273,9 @@ impl<'a> Driver<'a> {
             self.rep.violation(sig.to_string(), what2, replay);
         } else {
             replay = replay.set("history", h.to_json()).set("failing_op_index", op_index).set("shrunk", false);
+            if replaying {
+                replay = replay.set("observed_trace", self.last_trace.clone());
+            }
             self.rep.violation(sig.to_string(), what.to_string(), replay);
         }
     }
@@ -292,6 +297,7 @@ fn main() {
         prop: prop.clone(),
         max_polls: shard.args.u64("max-polls", 3_000_000),
         shrunk: BTreeSet::new(),
+        last_trace: Vec::new(),
     };
     if let Some(r) = &shard.replay {
         // re-run the witnesses' (shrunk) histories
